@@ -515,8 +515,9 @@ func (s *c16State) minMaxBattery(f *mField) {
 				}
 			}
 			wantRow, ok := s.m.minMaxRow(f, filter, max)
-			if max && withFilter && s.maxRowHangClass(f, filter) && os.Getenv("VERIF_C16_HANG_CLASSES") == "" {
-				// known class: the server never returns (and allocates without bound); see known_findings.d/C16.json
+			if max && withFilter && s.maxRowHangClass(f, filter) && os.Getenv("VERIF_C16_SKIP_HANG_CLASSES") != "" {
+				// class that never returned before fix 04fd772 (skip it with VERIF_C16_SKIP_HANG_CLASSES=1 on older trees;
+				// otherwise the 60 s watchdog ends the worker at the first such call)
 				s.r.Count("skipped:maxrow-filter-misses-shard-with-row0", 1)
 				continue
 			}
@@ -762,8 +763,8 @@ func (s *c16State) groupByBattery() {
 		if g.Filter != nil {
 			filter, _ = s.m.eval(g.Filter)
 		}
-		if s.groupByHangClass(g, filter) && os.Getenv("VERIF_C16_HANG_CLASSES") == "" {
-			// known class: the server never returns; see known_findings.d/C16.json
+		if s.groupByHangClass(g, filter) && os.Getenv("VERIF_C16_SKIP_HANG_CLASSES") != "" {
+			// class that never returned before fix 524d9cd (see above)
 			s.r.Count("skipped:groupby-3-children-hang-class", 1)
 			continue
 		}
@@ -825,7 +826,7 @@ func (s *c16State) groupByBattery() {
 			} else {
 				h.Children[i].Limit = u64p(uint64(1 + rng.Intn(3)))
 			}
-			if s.groupByHangClass(h, filter) && os.Getenv("VERIF_C16_HANG_CLASSES") == "" {
+			if s.groupByHangClass(h, filter) && os.Getenv("VERIF_C16_SKIP_HANG_CLASSES") != "" {
 				s.r.Count("skipped:groupby-3-children-hang-class", 1)
 				continue
 			}
@@ -1032,8 +1033,30 @@ func TestVerifC16(t *testing.T) {
 		}
 	})
 
-	// ---- directed witnesses of the two non-returning classes that the generator
-	// skips. They run LAST on worker 0: each leaves a spinning server goroutine
+	// ---- directed: Rows on a bool field
+	r.Directed("rows-bool-field", func(id string) {
+		index, err := env.newIndex(false)
+		if err != nil {
+			t.Fatalf("create index: %v", err)
+		}
+		defer env.dropIndex(index)
+		m := newMIndex(false)
+		s := &c16State{r: r, env: env, rng: vk.NewRand(1), id: id, m: m, index: index,
+			nonSet: map[string]bool{}, clearedMax: map[string]bool{}, hiShard: map[string]map[uint64]uint64{}, setHW: map[string]map[uint64]uint64{}}
+		f := m.addField(&mField{Name: "b", Type: "bool"})
+		s.fdesc = []string{"b:bool"}
+		if err := env.createField(index, f, "", 0); err != nil {
+			t.Fatalf("create field: %v", err)
+		}
+		for _, b := range [][2]uint64{{1, 1}, {0, 2}, {1, mSW + 3}} {
+			s.m.setBit(f, b[0], b[1], nil, true)
+			s.mutQ(esrvSetPQL(f, b[0], b[1], nil))
+		}
+		s.checkRows(mRowsCall{Field: "b"}, "rows/bool")
+		s.checkRows(mRowsCall{Field: "b", Column: u64p(2)}, "rows/bool/column")
+	})
+
+	// ---- directed witnesses of the two formerly non-returning classes. They run LAST on worker 0: each leaves a spinning server goroutine
 	// behind (the second one allocates without bound), so the worker ends right after.
 	r.Directed("hang-witnesses", func(id string) {
 		index, err := env.newIndex(false)
@@ -1058,7 +1081,7 @@ func TestVerifC16(t *testing.T) {
 		set("b", 1, 2)
 		set("c", 1, 2)
 		old := c16Watchdog
-		c16Watchdog = 5 * time.Second
+		c16Watchdog = 30 * time.Second
 		g := c16GB{Children: []mRowsCall{{Field: "a"}, {Field: "b"}, {Field: "c"}}}
 		s.hangSig = "hang/GroupBy/3-children-first-level-exhausted"
 		got, err := s.groupResult(g.PQL(), 3)
@@ -1070,7 +1093,7 @@ func TestVerifC16(t *testing.T) {
 		// MaxRow: row 0 present, filter misses the shard
 		set("a", 0, 1)
 		s.keepGoing = false
-		c16Watchdog = 2 * time.Second
+		c16Watchdog = 30 * time.Second
 		s.hangSig = "hang/MaxRow/filter-misses-shard-holding-row-0"
 		pql := "MaxRow(Row(b=1), field=a)"
 		res, err := s.q(pql)
